@@ -208,46 +208,38 @@ func runC08(c *Ctx) {
 		nGive += c.obFollow("421 then Close", f, c.direct("reply:421"), []string{lClose}, nil, nil)
 	}
 	R.Ob("give-up replies/found", "-", nGive >= 3, fmt.Sprintf("%d constant 421 replies", nGive))
+	// the panic verdict (errPanic is a 421) travels through dataErrorToStatus: where the delivery result is known to
+	// be errPanic, the handler closes
+	if f := c.A.Func("(*Conn).handleBdat"); f != nil {
+		_, s2 := c.Std()
+		nP := 0
+		for _, site := range s2.Find(f, "reply:dyn") {
+			cc := callCommon(site)
+			ex, ok := stripConv(cc.Args[1]).(*ssa.Extract)
+			if !ok {
+				continue
+			}
+			call, ok := ex.Tuple.(*ssa.Call)
+			if !ok || len(call.Call.Args) != 1 {
+				continue
+			}
+			src := describe(call.Call.Args[0])
+			if strings.Contains(src, "statusCollector") {
+				continue // per-recipient statuses: the delivery's own result decides
+			}
+			nP++
+			site := site
+			c.obFollowH("panic verdict then Close", f, func(in ssa.Instruction) bool { return in == site }, []string{lClose}, src+" == errPanic")
+		}
+		R.Ob("(*Conn).handleBdat/computed final replies found", c.P.Pos(f.Pos()), nP >= 2, fmt.Sprintf("%d", nP))
+	}
 
 	ruleResultOnEveryExit(c)
 
-	R.Rule("R-go-bounded", "E1", "the go statements of the package are the four known ones; delivery goroutines send their result at most once per path on a channel of capacity >= 1", 4)
-	want := map[string]bool{"(*Server).Serve": true, "(*Conn).handleBdat": true, "(*Conn).handleDataLMTP": true, "(*Server).Shutdown": true}
-	var got []string
-	for _, f := range c.P.AllFuncs() {
-		allInstrs(f, func(in ssa.Instruction) {
-			if _, ok := in.(*ssa.Go); ok {
-				top := f
-				for top.Parent() != nil {
-					top = top.Parent()
-				}
-				got = append(got, funcName(top))
-				R.Ob(funcName(f)+"/go statement is a known one", c.P.InstrPos(in), want[funcName(top)], "new goroutine started in "+funcName(f)+": its lifetime relative to the connection is not known to the rules")
-			}
-		})
-	}
-	sort.Strings(got)
-	for _, gn := range []string{"(*Conn).handleBdat$1", "(*Conn).handleDataLMTP$1"} {
-		g := c.A.Func(gn)
-		if g == nil {
-			continue
-		}
-		for _, body := range withClosures(g) {
-			res := CountPathsOpt(body, CountOpts{Count: func(in ssa.Instruction) (int, int) {
-				if _, ok := in.(*ssa.Send); ok {
-					return 1, 1
-				}
-				return 0, 0
-			}})
-			R.Ob(funcName(body)+"/at most one blocking send per path", c.P.Pos(body.Pos()), res.Max >= 0 && res.Max <= 1, fmt.Sprintf("up to %d sends per path on a channel of capacity 1", res.Max))
-			allInstrs(body, func(in ssa.Instruction) {
-				if snd, ok := in.(*ssa.Send); ok {
-					d := describe(snd.Chan)
-					R.Ob(c.siteKey(in, "send on a buffered channel"), c.P.InstrPos(in), strings.HasPrefix(d, "makechan(") && d != "makechan(0)", "send on "+d)
-				}
-			})
-		}
-	}
+	ruleGoBounded(c)
+	R.Rule("R-state-writers", "who-may-write", "the closed flag is written only by Conn.Close", 1)
+	c.obWriters("Conn.closed", "set once the connection has been given up", "(*Conn).Close")
+
 }
 
 // fieldOwner returns the struct type name owning the field stored by in.
@@ -270,6 +262,18 @@ func ruleResultOnEveryExit(c *Ctx) {
 			return 1, 1
 		}
 		return 0, 0
+	}
+	// the handler waits for the delivery's result only after it has closed the writing end: the backend reads until
+	// end-of-file, so waiting first is a deadlock
+	if f := c.A.Func("(*Conn).handleBdat"); f != nil {
+		_, sm := c.Std()
+		nW := 0
+		for _, site := range sm.Find(f, "chan-recv:Conn.dataResult") {
+			nW++
+			seen := sm.SeenBefore(site)
+			R.Ob(c.siteKey(site, "result awaited only after the pipe is closed"), c.P.InstrPos(site), seen["pipe-close-clean"] || seen["pipe-abort"], "the handler waits for the delivery result on a path where the BDAT pipe is still open: the backend waits for end-of-file and the handler for the backend")
+		}
+		R.Ob("(*Conn).handleBdat/awaits the delivery result", c.P.Pos(f.Pos()), nW >= 1, "no receive from the delivery result channel")
 	}
 	for _, gn := range []string{"(*Conn).handleBdat$1", "(*Conn).handleDataLMTP$1"} {
 		g := c.A.Func(gn)
@@ -306,5 +310,82 @@ func ruleResultOnEveryExit(c *Ctx) {
 			R.Ob(funcName(d)+"/result sent after a recovered panic", c.P.Pos(d.Pos()), sent, "the deferred recovery of the delivery goroutine does not certainly send a result when the backend panicked: the command loop waits for it forever")
 		}
 		R.Ob(gn+"/has a recovering defer", c.P.Pos(g.Pos()), nRec >= 1, "delivery goroutine without a recover(): a backend panic kills the process")
+		if gn == "(*Conn).handleBdat$1" {
+			// the reading end of the pipe is closed on every way out: otherwise the next chunk's copy blocks forever
+			_, sm := c.Std()
+			mm := sm.Must(g)
+			closedNormal := false
+			for l := range mm {
+				if strings.HasPrefix(l, "rpipe-") {
+					closedNormal = true
+				}
+			}
+			R.Ob(gn+"/reading end closed on every normal path", c.P.Pos(g.Pos()), closedNormal, "the delivery goroutine can return without closing the reading end of the BDAT pipe: a backend that returns before LAST leaves the command loop blocked in the next chunk's copy")
+			for _, d := range withClosures(g) {
+				if d == g {
+					continue
+				}
+				md, _ := sm.MustUnder(d, c.F.SkipUnder(`builtin:recover() != nil`))
+				closed := false
+				for l := range md {
+					if strings.HasPrefix(l, "rpipe-") {
+						closed = true
+					}
+				}
+				hasRecover := false
+				allInstrs(d, func(in ssa.Instruction) {
+					if call, ok := in.(*ssa.Call); ok {
+						if b, ok := call.Call.Value.(*ssa.Builtin); ok && b.Name() == "recover" {
+							hasRecover = true
+						}
+					}
+				})
+				if hasRecover {
+					R.Ob(funcName(d)+"/reading end closed after a recovered panic", c.P.Pos(d.Pos()), closed, "after a backend panic the reading end of the BDAT pipe stays open: a chunk being copied blocks forever")
+				}
+			}
+		}
+	}
+}
+
+// ruleGoBounded (C08, C20): which goroutines exist and that their result sends cannot block.
+func ruleGoBounded(c *Ctx) {
+	R := c.R
+	R.Rule("R-go-bounded", "E1", "the go statements of the package are the four known ones; delivery goroutines send their result at most once per path on a channel of capacity >= 1", 4)
+	want := map[string]bool{"(*Server).Serve": true, "(*Conn).handleBdat": true, "(*Conn).handleDataLMTP": true, "(*Server).Shutdown": true}
+	var got []string
+	for _, f := range c.P.AllFuncs() {
+		allInstrs(f, func(in ssa.Instruction) {
+			if _, ok := in.(*ssa.Go); ok {
+				top := f
+				for top.Parent() != nil {
+					top = top.Parent()
+				}
+				got = append(got, funcName(top))
+				R.Ob(funcName(f)+"/go statement is a known one", c.P.InstrPos(in), want[funcName(top)], "new goroutine started in "+funcName(f)+": its lifetime relative to the connection is not known to the rules")
+			}
+		})
+	}
+	sort.Strings(got)
+	for _, gn := range []string{"(*Conn).handleBdat$1", "(*Conn).handleDataLMTP$1"} {
+		g := c.A.Func(gn)
+		if g == nil {
+			continue
+		}
+		for _, body := range withClosures(g) {
+			res := CountPathsOpt(body, CountOpts{Count: func(in ssa.Instruction) (int, int) {
+				if _, ok := in.(*ssa.Send); ok {
+					return 1, 1
+				}
+				return 0, 0
+			}})
+			R.Ob(funcName(body)+"/at most one blocking send per path", c.P.Pos(body.Pos()), res.Max >= 0 && res.Max <= 1, fmt.Sprintf("up to %d sends per path on a channel of capacity 1", res.Max))
+			allInstrs(body, func(in ssa.Instruction) {
+				if snd, ok := in.(*ssa.Send); ok {
+					d := describe(snd.Chan)
+					R.Ob(c.siteKey(in, "send on a buffered channel"), c.P.InstrPos(in), strings.HasPrefix(d, "makechan(") && d != "makechan(0)", "send on "+d)
+				}
+			})
+		}
 	}
 }
